@@ -275,7 +275,11 @@ pub fn process_file_with_cache(
 
     // A path that is not valid UTF-8 has no faithful string key (the lossy forms of two different
     // names can coincide), so such a file is counted without the cache
-    let path_key = file_path.to_str().map(|p| p.replace('\\', "/"));
+    // The cache file belongs to the project, not to the working directory of one run: the key is
+    // the absolute path, so `a.rs` seen from `sub/` and from the root are different entries
+    let path_key = std::path::absolute(file_path)
+        .ok()
+        .and_then(|p| p.to_str().map(|p| p.replace('\\', "/")));
 
     // Racy-clean rule (as in git's index): a file whose mtime second is not older than this
     // clock reading can be rewritten within that second without changing (mtime, size), so its
